@@ -118,6 +118,15 @@ def gen_kinds(tier, rng):
                     if tier != 'quick' or rng.random() < 0.2:
                         yield case([a, b, c, Id(op)])
 
+
+# substring$: every start / length around both ends of strings of length 1..6 (incl. starts far beyond the left end)
+def gen_substring(tier, rng):
+    for t in ['a', 'ab', 'abc', 'a{b}c', 'abcdef']:
+        n = len(t)
+        for start in range(-(n + 4), n + 4):
+            for ln in range(-1, n + 3):
+                yield ('exhaustive_substring', 1, [straight([Sx(t), I(start), I(ln), Id('substring$')]), [], ''])
+
 # ----------------------------------------------------------------------------------------
 # structured random programs
 STR_POOL = ['', 'a', 'abc', 'Hello World', 'ab{c}d', "{\\'e}cole {T}e{X}", 'x: y. Z', 'The {\\TeX}book: a Story', '  ', 'e.g.', 'wow!',
@@ -341,7 +350,7 @@ def mutate(rng, cmds):
     op = rng.random()
     i = rng.randrange(len(cmds))
     if op < 0.2 and cmds[i][1]:
-        cmds[i][1] = cmds[i][1][:-1]                      # a missing brace group
+        cmds[i][1] = cmds[i][1][:-1] + [[]]               # an empty last group (a missing group is a syntax error: C15)
     elif op < 0.35:
         del cmds[i]                                       # e.g. no READ, no ENTRY, an undefined function
     elif op < 0.5:
@@ -382,18 +391,23 @@ def gen_exec_program(rng):
 
 # ITERATE / REVERSE / SORT and entry variables, made visible in the output (read by c03_oracle.oracle_probe)
 PROBE_TITLES = ['b', 'a', 'B', 'ab', 'a b', 'zz', '', 'a', 'b', '10', '9', 'a{b}', 'Z']
-PROBE_MARKS = ('first', 'count', 'iterate', 'reverse', 'sorted')
+PROBE_MARKS = ('first', 'count', 'iterate', 'reverse', 'sorted', 'reset')
 def probe_header(with_default):
     def mark(l):
         return cmd('FUNCTION', [Id('mark.' + l)], [Sx('#' + l), Id('write$'), Id('newline$')])
     def typ(name, tag):
         return cmd('FUNCTION', [Id(name)], [Sx(tag), Id('write$'), Id('newline$')])
-    cmds = [cmd('ENTRY', [Id('title')], [Id('n')], []), cmd('INTEGERS', [Id('g')]),
+    sep = [Sx(':'), Id('*')]
+    cmds = [cmd('ENTRY', [Id('title')], [Id('n'), Id('m')], [Id('t')]), cmd('INTEGERS', [Id('g')]),
             typ('misc', '[M]'), typ('book', '[B]')] + ([typ('default.type', '[D]')] if with_default else []) + [
-            cmd('FUNCTION', [Id('probe.show')], [Sx('<'), Id('cite$'), Id('*'), Sx(':'), Id('*'), Id('n'), Id('int.to.str$'), Id('*'), Sx(':'), Id('*'),
-                                                Id('sort.key$'), Id('*'), Sx('>'), Id('*'), Id('write$'), Id('newline$'), Id('call.type$')]),
+            cmd('FUNCTION', [Id('probe.show')], [Sx('<'), Id('cite$'), Id('*')] + sep + [Id('n'), Id('int.to.str$'), Id('*')] + sep +
+                                                [Id('sort.key$'), Id('*')] + sep + [Id('m'), Id('int.to.str$'), Id('*')] + sep + [Id('t'), Id('*'),
+                                                Sx('>'), Id('*'), Id('write$'), Id('newline$'), Id('call.type$')]),
             cmd('FUNCTION', [Id('probe.count')], [Id('g'), I(1), Id('+'), Q('g'), Id(':='), Id('g'), Q('n'), Id(':='),
-                                                 Id('title'), Id('duplicate$'), Id('missing$'), F(Id('pop$'), Sx('')), Q('skip$'), Id('if$'), Q('sort.key$'), Id(':='), Id('probe.show')])]
+                                                 Id('g'), I(7), Id('+'), Q('m'), Id(':='), Sx('x'), Id('g'), Id('int.to.str$'), Id('*'), Q('t'), Id(':='),
+                                                 Id('title'), Id('duplicate$'), Id('missing$'), F(Id('pop$'), Sx('')), Q('skip$'), Id('if$'), Q('sort.key$'), Id(':='), Id('probe.show')]),
+            # back to the default values: an assignment of #0 / "" is an assignment like any other
+            cmd('FUNCTION', [Id('probe.reset')], [I(0), Q('m'), Id(':='), Sx(''), Q('t'), Id(':='), Id('probe.show')])]
     cmds += [mark(l) for l in PROBE_MARKS]
     cmds += [cmd('READ'), cmd('EXECUTE', [Id('mark.first')]), cmd('ITERATE', [Id('probe.show')]),
              cmd('EXECUTE', [Id('mark.count')]), cmd('ITERATE', [Id('probe.count')])]
@@ -403,12 +417,14 @@ PROBE_STEPS = {
     'iterate': [cmd('EXECUTE', [Id('mark.iterate')]), cmd('ITERATE', [Id('probe.show')])],
     'reverse': [cmd('EXECUTE', [Id('mark.reverse')]), cmd('REVERSE', [Id('probe.show')])],
     'count': [cmd('EXECUTE', [Id('mark.count')]), cmd('ITERATE', [Id('probe.count')])],
+    'reset': [cmd('EXECUTE', [Id('mark.reset')]), cmd('ITERATE', [Id('probe.reset')])],
+    'reset_rev': [cmd('EXECUTE', [Id('mark.reset')]), cmd('REVERSE', [Id('probe.reset')])],
 }
 def order_probe(rng):
     cmds = probe_header(rng.random() < 0.7)
-    for _ in range(rng.randint(1, 5)):
+    for _ in range(rng.randint(1, 6)):
         k = rng.random()
-        cmds += PROBE_STEPS['sorted' if k < 0.4 else 'iterate' if k < 0.6 else 'reverse' if k < 0.85 else 'count']
+        cmds += PROBE_STEPS['sorted' if k < 0.3 else 'iterate' if k < 0.45 else 'reverse' if k < 0.65 else 'count' if k < 0.8 else 'reset' if k < 0.9 else 'reset_rev']
     keys = rng.sample(['k1', 'k2', 'k3', 'k4', 'k5', 'k6', 'k7'], rng.randint(0, 7))
     bib = ''.join('@%s{%s%s}\n' % (rng.choice(['misc', 'misc', 'book', 'BOOK', 'weird']), k, '' if rng.random() < 0.15 else ', title = {%s}' % rng.choice(PROBE_TITLES)) for k in keys)
     cites = rng.sample(keys, rng.randint(0, len(keys)))
@@ -450,14 +466,14 @@ def pinned():
     ex(Id('nosuch')); ex(Q('nosuch')); ex(Id('GI'), Id('Gs'), Id('SWAP$')); ex(Q('f')); ex(Q('f'), Q('f'), Id('='))
     # commands
     P.append([[cmd('EXECUTE', [I(3)]), cmd('EXECUTE', [Sx('s')]), cmd('EXECUTE', [F(I(1))]), cmd('EXECUTE', [Q('skip$')]), cmd('EXECUTE', [Id('stack$')])], [], ''])
-    P.append([[cmd('EXECUTE', [])], [], '']); P.append([[cmd('EXECUTE')], [], '']); P.append([[cmd('SORT')], [], '']); P.append([[cmd('SORT')], ['a'], ''])
+    P.append([[cmd('EXECUTE', [])], [], '']); P.append([[cmd('SORT')], [], '']); P.append([[cmd('SORT')], ['a'], ''])
     P.append([[cmd('ITERATE', [Id('skip$')])], [], '']); P.append([[cmd('ITERATE', [Id('skip$')])], ['a'], '']); P.append([[cmd('ITERATE', [Id('nofn')])], [], ''])
     P.append([[cmd('ENTRY', [Id('crossref')], [], [])], [], '']); P.append([[cmd('ENTRY', [Id('a'), Id('A')], [], [])], [], '']); P.append([[cmd('ENTRY', [], [Id('swap$')], [])], [], ''])
     P.append([[cmd('ENTRY', [I(1)], [], [])], [], '']); P.append([[cmd('ENTRY', [F()], [], [])], [], '']); P.append([[cmd('ENTRY', [Sx('a'), Q('b')], [], []), cmd('EXECUTE', [Q('a')]), cmd('EXECUTE', [Q('B')])], [], ''])
     P.append([[cmd('INTEGERS', [Id('x'), Id('X'), Id('swap$')]), cmd('EXECUTE', [Id('swap$')]), cmd('STRINGS', [Id('x')]), cmd('EXECUTE', [Id('x')])], [], ''])
     P.append([[cmd('FUNCTION', [Id('f')], []), cmd('FUNCTION', [Id('F')], [])], [], '']); P.append([[cmd('FUNCTION', [I(1)], [])], [], '']); P.append([[cmd('FUNCTION', [], [])], [], ''])
     P.append([[cmd('MACRO', [Id('a')], [Sx('x')]), cmd('MACRO', [Id('b')], [I(3)]), cmd('MACRO', [Id('a')], [Sx('y')]), cmd('MACRO', [I(1)], [Id('zz')])], [], ''])
-    P.append([[cmd('MACRO', [F()], [Sx('x')])], [], '']); P.append([[cmd('MACRO', [Id('a')])], [], ''])
+    P.append([[cmd('MACRO', [F()], [Sx('x')])], [], ''])
     # scoping of entry variables under ITERATE / REVERSE / SORT
     prog = [cmd('ENTRY', [Id('title'), Id('author'), Id('year'), Id('note'), Id('month')], [Id('n')], [Id('s')]), cmd('INTEGERS', [Id('g')]), cmd('STRINGS', [Id('t')]),
             cmd('MACRO', [Id('mac')], [Sx('Macro Text')]),
@@ -516,6 +532,8 @@ def gen_all(tier, rng):
     for c in gen_exhaustive(tier, rng):
         yield c
     for c in gen_kinds(tier, rng):
+        yield c
+    for c in gen_substring(tier, rng):
         yield c
     for i in range(1500 if tier == 'quick' else 10000):
         cmds, cites, bib = gen_program(rng, loops=True)
